@@ -23,4 +23,4 @@ INIT MCInit
 NEXT MCNext
 CHECK_DEADLOCK FALSE
 VIEW View
-INVARIANTS C01_NoPartialCommit C01_FailedNeverMerged C01_AtomicAtQuiescence C01_CommittedIsReadable C01_ReportedFailed
+INVARIANTS C01_NoPartialCommit C01_FailedNeverMerged C01_AtomicAtQuiescence C01_CommittedIsReadable C01_ReportedFailed Cover
